@@ -219,6 +219,11 @@ def oracle(stream, cid, ops, outs):
     sim = stream["meta"][cid]
     W = sim.cfg["pw"]
     nprobe = 0
+    tx_limit = {}          # endpoint -> tx_alloc_limit it was created with (= what the peer advertised)
+    for op in ops[:6]:
+        w = op.split(" ")
+        if len(w) > 11 and w[1] == "new":
+            tx_limit[w[0]] = int(w[11])
     for op, o in zip(ops, outs):
         if not (op.endswith(" probe") and o.startswith("fa=")):
             continue
@@ -235,6 +240,10 @@ def oracle(stream, cid, ops, outs):
             fails.append({"oracle": "recv_alloc_released", "detail": "%s: the receive window is empty (base = end = %s) but %d bytes of receive allocation are still counted: "
                           "the next packets within the advertised limit would be discarded" % (ep, p["pr"][0], alloc), "signature": {"oracle": "recv_alloc_released"}}); break
         sa, smx = int(p["ps"][2]), int(p["ps"][3])
+        want = tx_limit.get(ep)
+        if want is not None and smx != (want + 1447) // 1448 * 1448:
+            fails.append({"oracle": "send_limit_agrees", "detail": "%s: the sender works with an allocation limit of %d bytes but the peer advertised %d (%d rounded up to whole fragments)" %
+                          (ep, smx, want, (want + 1447) // 1448 * 1448), "signature": {"oracle": "send_limit_agrees"}}); break
         if sa > smx:
             fails.append({"oracle": "send_alloc_bound", "detail": "%s: send alloc %d > peer limit %d" % (ep, sa, smx), "signature": {"oracle": "send_alloc_bound"}}); break
         if int(p["pb"][2]) > smx:
